@@ -427,6 +427,9 @@ func runUnit(p Prop, u Unit, scratch, out, tier string, seed int64, replay strin
 		env = append(env, "GORACE=halt_on_error=0 log_path="+filepath.Join(out, "race"))
 	}
 	env = append(env, u.Env...)
+	if v := os.Getenv("VERIF_SELFTEST_RACE"); v != "" {
+		env = append(env, "VERIF_SELFTEST_RACE="+v)
+	}
 	cmd.Env = env
 	logf := filepath.Join(out, "gotest.log")
 	lf, _ := os.Create(logf)
